@@ -5,4 +5,4 @@ from harness.props.poolprops import PoolProp
 class P(PoolProp):
     id = "C02"
     focus = "C02"
-    rule = ('Same cases, biased to flow control (small results bound, straggler workers, longer inputs) and to all queue bounds at 1.  VIOLATION when the scheduler finds a state in which no thread or process can move while the main thread has not finished (deadlock, reported with the blocked operation of every thread), or the step limit is hit.  The exit hang of the open known finding (int work queue bound below the number of workers retired at the very end) is recognised by its signature exit_put_deadlock and reported as KNOWN-FINDING; any other hang is a violation.')
+    rule = ('Same cases, biased to flow control (small results bound, straggler workers, longer inputs) and to all queue bounds at 1.  VIOLATION when the scheduler finds a state in which no thread or process can move while the main thread has not finished (deadlock, reported with the blocked operation of every thread), or the step limit is hit.  Bounded work queues smaller than the number of workers, with retiring workers, are part of the generated configurations (the exit hang F4\' repaired by ccf59e2 has the signature exit_put_deadlock and its case is in the corpus).')
